@@ -88,9 +88,18 @@ impl NormalFormQuery {
             // PERF: better criterion for using top_n
             // PERF: top_n for multiple columns?
             // TODO: efficient PERF top_n for null or constant vec (construct indices of size min(ranking.len(), limit))
+            // Nulls can only be fused into the ranking for these types, others take the full sort.
+            let top_n_supported = !ranking.is_nullable()
+                || matches!(
+                    ranking.tag,
+                    EncodingType::NullableI64
+                        | EncodingType::NullableF64
+                        | EncodingType::NullableStr
+                );
             let indices = if limit < partition_range.len() / 2
                 && self.order_by.len() == 1
                 && !ranking.is_constant()
+                && top_n_supported
             {
                 let ranking = if ranking.is_nullable() {
                     // TODO: not implemented for all types (e.g. NullableU8). Need to upcast to u64, add corresponding fused types, or add nullable top_n
